@@ -12,7 +12,7 @@ RULE = ("mutable types x histories with copy() taken at random points (copies ar
         "after every command) and get_backing() snapshots taken before every command; at the end every snapshot node is "
         "re-read (root recomputed from scratch by walking the tree, encoding through a fresh view, child identity) and "
         "must equal what it was when taken — also after summarize_into / setter / getter calls made directly on the final, "
-        "hashed backing; non-trivial = >= 2 mutations after the first snapshot")
+        "hashed backing; the history is also replayed with nothing hashed on the way (unhashed snapshots re-read at the end); non-trivial = >= 2 mutations after the first snapshot")
 
 
 def gen_inputs(ctx):
@@ -81,6 +81,27 @@ def build(inp):
                 attempt(lambda: nd.setter(g)(RootNode(b"\x11" * 32)), anyerr=True)
                 attempt(lambda: nd.setter(g, True)(zero_node(0)), anyerr=True)
                 attempt(lambda: nd.getter(g).merkle_root(), anyerr=True)
+    except Exception:  # noqa
+        pass
+    # unobserved replay (model-free): the same history with NOTHING hashed on the way — no view, no snapshot has a cached
+    # root while the commands run (shortcuts that write into nodes "nobody has hashed yet" only show then)
+    try:
+        sh2 = Shadow(inp["t"], inp["v"])
+        snaps2 = []
+        for k, cmd in enumerate(inp["cmds"]):
+            for vi, x in enumerate(sh2.views):
+                if hasattr(x, "_backing") and len(snaps2) < 40:
+                    nd = x.get_backing()
+                    snaps2.append((k, vi, nd, fresh_root(nd), shape(nd)))
+            try:
+                sh2.run(cmd)
+            except Exception:
+                pass
+        for (k, vi, nd, fr0, sh0) in snaps2:
+            if fresh_root(nd) != fr0 and c.why is None:
+                c.why = "unhashed snapshot of view %d taken before command %d changed its root (history run without hashing anything)" % (vi, k + 1)
+            elif shape(nd) != sh0 and c.why is None:
+                c.why = "unhashed snapshot of view %d taken before command %d had a child replaced in place" % (vi, k + 1)
     except Exception:  # noqa
         pass
     for (k, vi, ty, nd, r0, fr0, sh0, enc0) in snaps:
